@@ -755,8 +755,7 @@ func OrExpr(query *Query, current Map, expr *sqlparser.OrExpr, opts ...ExprOptio
 }
 
 func ComparisonExpr(query *Query, current Map, expr *sqlparser.ComparisonExpr, opts ...ExprOption) (bool, error) {
-	current["<-"] = query.data
-	defer delete(current, "<-")
+	current = backwardNavigation(query, current)
 	left, err := Expr(query, current, expr.Left, opts...)
 	if err != nil {
 		return false, err
@@ -1299,7 +1298,7 @@ func SelectExpr(query *Query, current Map, expr *sqlparser.SelectExprs, opts ...
 
 func SubqueryExpr(query *Query, current Map, expr *sqlparser.Subquery, opts ...ExprOption) (any, error) {
 	// Backward Navigation
-	defer backwardNavigation(query, current)()
+	current = backwardNavigation(query, current)
 	query.postProcessors = append(query.postProcessors, func() error {
 		delete(current, "<-")
 		return nil
@@ -1321,19 +1320,17 @@ func SubqueryExpr(query *Query, current Map, expr *sqlparser.Subquery, opts ...E
 	return rs, nil
 }
 
-// backwardNavigation puts the `<-` back-reference into the current row for the time a
-// subquery is evaluated against it and returns the function that takes it out again -
-// on every path, so that a failing subquery does not leave it in the caller's rows.
-func backwardNavigation(query *Query, current Map) func() {
-	previous, nested := current["<-"]
-	current["<-"] = query.data
-	return func() {
-		if nested {
-			current["<-"] = previous
-			return
-		}
-		delete(current, "<-")
+// backwardNavigation returns the current row as a comparison, a subquery or EXISTS sees it:
+// a copy that carries the `<-` back-reference to the enclosing document. The row itself
+// belongs to the caller - possibly to several queries running at the same time - and is not
+// written to.
+func backwardNavigation(query *Query, current Map) Map {
+	scoped := make(Map, len(current)+1)
+	for key, value := range current {
+		scoped[key] = value
 	}
+	scoped["<-"] = query.data
+	return scoped
 }
 
 func CaseExpr(query *Query, current Map, expr *sqlparser.CaseExpr, opts ...ExprOption) (any, error) {
@@ -1361,7 +1358,7 @@ func CaseExpr(query *Query, current Map, expr *sqlparser.CaseExpr, opts ...ExprO
 // it finds the first value
 func ExistExpr(query *Query, current Map, expr *sqlparser.ExistsExpr, opts ...ExprOption) (bool, error) {
 	// Backward Navigation
-	defer backwardNavigation(query, current)()
+	current = backwardNavigation(query, current)
 	query.postProcessors = append(query.postProcessors, func() error {
 		delete(current, "<-")
 		return nil
